@@ -342,6 +342,11 @@ def arc_locate(a, q):
     return res, abs(math.hypot(al, be) - 1.0), math.atan2(be, al)
 
 
+# ConstructionEllipse.transform treats transformed axes with |cos| <= 1e-6 as orthogonal (no rytz construction): curves are
+# compared with this documented precision, points and vectors with 1e-9
+CURVE_TOL = 2e-6
+
+
 def arc_contains(a, q, tol):
     res, rad, t = arc_locate(a, q)
     size = max(vlen(a[3]), vlen(a[4]))
@@ -350,7 +355,7 @@ def arc_contains(a, q, tol):
     t0, t1 = a[5], a[6]
     if t1 - t0 >= TAU - 1e-9:
         return True
-    slack = 1e-6
+    slack = 1e-5
     k = math.floor((t - t0) / TAU)
     for tt in (t - k * TAU, t - (k + 1) * TAU, t - (k - 1) * TAU):
         if t0 - slack <= tt <= t1 + slack:
@@ -407,7 +412,7 @@ def cmp_prims(want, got, tol=1e-9):
             if vlen(w[2]) < 1e-300 or vlen(g[2]) < 1e-300 or vlen(vsub(vnorm(w[2]), vnorm(g[2]))) > 1e-8:
                 return f"{w[1]}: expected direction {fmt(vnorm(w[2]) if vlen(w[2]) else w[2])} got {fmt(g[2])}"
         elif kind == "A":
-            if not arc_equiv(w, g, max(tol, 1e-8)):
+            if not arc_equiv(w, g, max(tol, CURVE_TOL)):
                 return (f"{w[1]}: expected curve c={fmt(w[2])} u={fmt(w[3])} v={fmt(w[4])} t=[{w[5]:.6g},{w[6]:.6g}] "
                         f"got c={fmt(g[2])} u={fmt(g[3])} v={fmt(g[4])} t=[{g[5]:.6g},{g[6]:.6g}]")
         elif kind == "L":
@@ -1144,7 +1149,7 @@ def cmp_pieces(want, got, tol=1e-9, ordered=True):
         elif w[0] == "P":
             if vlen(vsub(w[1], g[1])) > tol * sc:
                 return f"point {i}: expected {fmt(w[1])} got {fmt(g[1])}"
-        elif not arc_equiv(w, g, max(tol, 1e-8)):
+        elif not arc_equiv(w, g, max(tol, CURVE_TOL)):
             return (f"curve {i}: expected c={fmt(w[2])} u={fmt(w[3])} v={fmt(w[4])} t=[{w[5]:.6g},{w[6]:.6g}] "
                     f"got c={fmt(g[2])} u={fmt(g[3])} v={fmt(g[4])} t=[{g[5]:.6g},{g[6]:.6g}]")
     return None
@@ -1460,7 +1465,7 @@ def run_nested_case(recipe, fails, stats, how="virtual"):
         fails.append((f"{cause}/nested-{how}/{aspect}/{_hash(rep)}", f"nested INSERT ({how}, depth {len(recipe['blocks'])}): {what}", rep))
 
     def prio(fl):
-        for c in ("rotated-axes", "minsert", "plane-shear", "hatch-ellipse-edge"):
+        for c in ("plane-shear", "hatch-ellipse-edge", "rotated-axes", "minsert"):
             if c in fl:
                 return c
         return "general"
